@@ -320,7 +320,7 @@ def run(ctx):
     for e in sub.errors:
         ctx.error("shared C11 rules: " + e)
     for o in sub.obligations:
-        if o.rule in ("C11.R3", "C11.R4"):
+        if o.rule in ("C11.R1", "C11.R2", "C11.R3", "C11.R4"):
             ctx.ob("C04.R6", o.where, o.ok, o.what, key=o.key, loc=o.loc, detail=o.detail)
     ctx.floor("C04.R6", 5 + 20 + 6)
 
